@@ -1216,6 +1216,17 @@ func (ctx *EvalCtx) call(e *CExpr) TV {
 		}
 		cond := mkAnd(ex...)
 		return boolTV(leaf(fmt.Sprintf("(forall ((al Int)) (! (=> %s (= (select %s al) (select %s al))) :pattern ((select %s al))))", cond, a1, a0, a1)))
+	case "locksUnchangedPlus":
+		// locksUnchangedPlus(l1, ..): the mutexes held are those held at function entry plus the listed ones
+		if ctx.old == nil {
+			ctx.fail("locksUnchangedPlus() needs a pre-state")
+		}
+		h := vc.comp(ctx.old, "held", "(Array Int Bool)")
+		for _, a := range e.Args {
+			ad, _ := ctx.addrOf(a)
+			h = mkStore(h, ad, tTrue)
+		}
+		return boolTV(mkEq(vc.comp(ctx.st, "held", "(Array Int Bool)"), h))
 	case "locksUnchanged":
 		// the set of mutexes held is the same as at function entry
 		if ctx.old == nil {
